@@ -33,9 +33,10 @@ def run(m, chk):
     arg_flow(r, chk, "ARG-FLOW", "curves.BaseCurve.update", ".fit_curve", "other", ["self"])
     fit_flow(r, chk)
     no_swallow(r, chk, [q, "curves.BaseCurve.degree.setter"])
-    ctx = r.root(q)
-    hits = [e for e in sorted(ctx.summary.effects, key=repr) if e[2] == "_KnotVector__internal" and root_of(e[1]) is not None]
-    chk.ob("SHARED-KV", f"{q}: the knot vector is lowered on a copy", not hits, loc=hits[0][3] if hits else r.loc(ctx, ctx.fi.node), detail="" if not hits else f"{q}: the curve's own (possibly shared) KnotVector object {fmt_obj(hits[0][1])} is modified in place before the gate", func=q, construct="in-place change of the stored knot vector")
+    for qq, verb, when in ((q, "lowered", "before the gate"), (C + "degree_increase", "raised", "(a second curve on the same KnotVector object is then elevated from an already elevated vector)")):
+        ctx = r.root(qq)
+        hits = [e for e in sorted(ctx.summary.effects, key=repr) if e[2] == "_KnotVector__internal" and root_of(e[1]) is not None]
+        chk.ob("SHARED-KV", f"{qq}: the knot vector is {verb} on a copy", not hits, loc=hits[0][3] if hits else r.loc(ctx, ctx.fi.node), detail="" if not hits else f"{qq}: the curve's own (possibly shared) KnotVector object {fmt_obj(hits[0][1])} is modified in place {when}", func=qq, construct="in-place change of the stored knot vector")
     # dispatch of the degree setter
     sq = "curves.BaseCurve.degree.setter"
     ctx = r.root(sq)
